@@ -13,7 +13,7 @@ ANCHORS = ["pyoma2.functions.gen:merge_mode_shapes", "pyoma2.functions.gen:MSF",
 REQUIRED_MONITORS = ["merge-is-repeatable", "merge@function", "merge@PoSER.synthetic", "merge@PoSER.ssi", "stats@PoSER", "roworder@flatten", "two-campaigns", "names@PoSER.def_geo1"]
 ALL_STATES = ["factors:generic", "factors:+-1 only", "entries:real", "entries:complex", "rov:some setup has none",
               "refs:permuted differently per setup", "nref=1", "nref>1"]
-REQUIRED_STATES = ["factors:generic", "entries:complex", "refs:permuted differently per setup", "global shapes of magnitude < 1e-3", "result object replaced after construction", "two modes with the same frequency", "geometry names from setups of different channel counts", "a reference sensor on a node of a mode", "first setup's shapes of integer type"]
+REQUIRED_STATES = ["a roving position measured in two setups (repeated name)", "factors:generic", "entries:complex", "refs:permuted differently per setup", "global shapes of magnitude < 1e-3", "result object replaced after construction", "two modes with the same frequency", "geometry names from setups of different channel counts", "a reference sensor on a node of a mode", "first setup's shapes of integer type"]
 RULE = ("global matrices G (1..8 modes, real/complex), 2..5 setups, 1..4 references, 0..5 roving per setup, channel lists randomly "
         "permuted per setup, factors +-[0.05,20] per setup and mode; merged result compared with c_1k*[G_ref;G_rov1;...] (rel 1e-10), "
         "row order with flatten_sns_names; PoSER statistics with statistics.pstdev; non-trivial = at least one factor ratio "
@@ -146,10 +146,16 @@ def run_fn(ctx, rng):
     nt = judge_merge(ctx, "merge@function", M, G, c, nref, nrov, chan_glob, reflist, 1e-10, "fn")
     note_states(ctx, G, c, nref, nrov, reflist)
     # row order = flatten_sns_names of matching name lists
-    names = [[("R%d" % g if g < nref else "dof%d" % g) for g in cg] for cg in chan_glob]
+    alias = {}
+    rov_sets = [[g for g in cg if g >= nref] for cg in chan_glob]
+    if nset >= 2 and rng.random() < 0.3 and rov_sets[0] and rov_sets[-1]:
+        # a roving position measured again in a later setup: the merged shape keeps one row per measured channel, so does the name list
+        alias[int(rng.choice(rov_sets[-1]))] = int(rng.choice(rov_sets[0]))
+        ctx.state("a roving position measured in two setups (repeated name)")
+    names = [[("R%d" % g if g < nref else "dof%d" % alias.get(g, g)) for g in cg] for cg in chan_glob]
     flat = G_.flatten_sns_names([list(n) for n in names], [list(r) for r in reflist])
     ctx.ev("roworder@flatten")
-    exp = [f"REF{j+1}" for j in range(nref)] + [f"dof{g}" for g in expected_rows(nref, chan_glob, reflist)[nref:]]
+    exp = [f"REF{j+1}" for j in range(nref)] + [f"dof{alias.get(g, g)}" for g in expected_rows(nref, chan_glob, reflist)[nref:]]
     ctx.check(list(flat) == exp, "fn:flatten_order", lambda: f"flatten_sns_names order {flat} differs from merged row order {exp}")
     if nt:
         ctx.nontrivial(("fn", nset, nref, tuple(nrov), cplx, nmodes, float(np.round(c[1, 0], 6))))
